@@ -194,9 +194,19 @@ CharClass(c) ==
   ELSE IF IsAlpha(c) THEN "a" ELSE IF c = 43 THEN "+" ELSE IF c = 45 THEN "-" ELSE IF c = 46 THEN "."
   ELSE IF c = 58 THEN ":" ELSE IF c = 32 THEN "_" ELSE IF c \in {9, 10, 12, 13} THEN "w" ELSE IF c = 39 THEN "q"
   ELSE IF c = 64 THEN "@" ELSE IF c = 47 THEN "/" ELSE IF c > 126 THEN "U" ELSE "x"
-RECURSIVE ShapeR(_, _)
-ShapeR(s, j) == IF j > Len(s) THEN "" ELSE IF j > 32 THEN "~" ELSE CharClass(s[j]) \o ShapeR(s, j + 1)
-Shape(s) == ShapeR(s, 1)
+(* the character classes of s; a run of more than four characters of one class is written
+   as four of them and a "+"; at most 40 characters *)
+RECURSIVE ShapeR(_, _, _, _, _)
+ShapeR(s, j, prev, run, n) ==
+  IF j > Len(s) THEN ""
+  ELSE IF n >= 40 THEN "~"
+  ELSE LET c == CharClass(s[j])
+       IN IF c = prev
+          THEN (IF run < 4 THEN c \o ShapeR(s, j + 1, c, run + 1, n + 1)
+                ELSE IF run = 4 THEN "+" \o ShapeR(s, j + 1, c, 5, n + 1)
+                ELSE ShapeR(s, j + 1, c, 5, n))
+          ELSE c \o ShapeR(s, j + 1, c, 1, n + 1)
+Shape(s) == ShapeR(s, 1, "", 0, 0)
 
 ConvVector(x) ==
   (IF Convertible("Boolean", x) THEN "B" ELSE "") \o (IF Convertible("Integer", x) THEN "I" ELSE "") \o
